@@ -435,7 +435,17 @@ func FileClose(of *os.File) error {
 }
 
 //verif:stub (*os.File).Sync
-func FileSync(of *os.File) error { return fromOS(of).check("sync") }
+func FileSync(of *os.File) error {
+	f := fromOS(of)
+	if err := f.check("sync"); err != nil {
+		return err
+	}
+	// recorded for durability-order checks; not a mutating operation (no crash point, no monitor call)
+	if FSLogOn {
+		FSLog = append(FSLog, FSOp{"sync", f.path, 0, 0})
+	}
+	return nil
+}
 
 //verif:stub (*os.File).Fd
 func FileFd(of *os.File) uintptr { return 3 }
